@@ -125,8 +125,10 @@ def r1_census(ctx, M):
     from . import chunker as CH
     CR = CH.roles(ctx)
     reach = reachable_bodies(ctx.facts, roots)
-    excluded = {n for n in reach if n.split("::{closure")[0] in (CR["poll_next"], CR["size_hint"], CR["is_end_stream"]) or
-                n.startswith("<" + CR["reader"])}
+    entry_excl = {n for n in reach if n.split("::{closure")[0] in (CR["poll_next"], CR["size_hint"], CR["is_end_stream"]) or
+                  n.startswith("<" + CR["reader"])}
+    # the chunk reader's entry points and whatever only they reach (private helpers of the reader)
+    excluded = reach - reachable_bodies(ctx.facts, roots, stop=entry_excl) | entry_excl
     notes = set()
     tl = make_typelevel(ctx, M, notes)
     import json, os
